@@ -61,6 +61,7 @@ def run_S8(chk):
                     f"singular values, so for that solver the sector comes out in ascending order and the truncation `[:k]` keeps the smallest")
 
 MUTANTS = [
+    ('which swallowed by a named parameter', 'yastn/backend/backend_np.py', 'def eig(data, meta=None, sizes=(1, 1), **kwargs):', "def eig(data, meta=None, sizes=(1, 1), which='LM', **kwargs):", 'U10'),
     ('eigh maps legs with the inverse permutation', 'yastn/tensor/linalg.py', "    out_hl = tuple(a.trans[ax] for ax in out_hl)\n    out_hr = tuple(a.trans[ax] for ax in out_hr)\n    #\n    if not all(x == 0 for x in a.struct.n):\n        raise YastnError('eigh requires tensor charge to be zero.')", "    out_hl = tuple(a.trans.index(ax) for ax in out_hl)\n    out_hr = tuple(a.trans.index(ax) for ax in out_hr)\n    #\n    if not all(x == 0 for x in a.struct.n):\n        raise YastnError('eigh requires tensor charge to be zero.')", 'L1'),
     ('moveaxis normalises with the native leg count', 'yastn/tensor/_single.py', '    ldst = tuple(xx + a.ndim if xx < 0 else xx for xx in ldst)', '    ldst = tuple(xx + a.ndim_n if xx < 0 else xx for xx in ldst)', 'L1'),
     ("qr: R gets meta-fusion of the left group", "yastn/tensor/linalg.py", "    Rmfs = ((1,),) + tuple(a.mfs[ii] for ii in out_mr)", "    Rmfs = ((1,),) + tuple(a.mfs[ii] for ii in out_ml)", "L3"),
